@@ -37,8 +37,13 @@ func CalculateCodeAge(messages []CommitMessage) []ProjectInfo {
 		agesArray = append(agesArray, info)
 	}
 
+	// map iteration order is random: ties are broken by name, so that the table (and what
+	// is left of it after `-f -s N`) is the same on every run
 	sort.Slice(agesArray, func(i, j int) bool {
-		return agesArray[i].Age.Before(agesArray[j].Age)
+		if !agesArray[i].Age.Equal(agesArray[j].Age) {
+			return agesArray[i].Age.Before(agesArray[j].Age)
+		}
+		return agesArray[i].EntityName < agesArray[j].EntityName
 	})
 
 	return agesArray
@@ -54,7 +59,10 @@ func GetTeamSummary(messages []CommitMessage) []TeamSummary {
 	}
 
 	sort.Slice(sortInfos, func(i, j int) bool {
-		return sortInfos[i].RevsCount > sortInfos[j].RevsCount
+		if sortInfos[i].RevsCount != sortInfos[j].RevsCount {
+			return sortInfos[i].RevsCount > sortInfos[j].RevsCount
+		}
+		return sortInfos[i].EntityName < sortInfos[j].EntityName
 	})
 
 	return sortInfos
@@ -205,7 +213,10 @@ func GetTopAuthors(commitMessages []CommitMessage) []TopAuthor {
 	}
 
 	sort.Slice(topAuthors, func(i, j int) bool {
-		return topAuthors[i].CommitCount > topAuthors[j].CommitCount
+		if topAuthors[i].CommitCount != topAuthors[j].CommitCount {
+			return topAuthors[i].CommitCount > topAuthors[j].CommitCount
+		}
+		return topAuthors[i].Name < topAuthors[j].Name
 	})
 
 	return topAuthors
